@@ -394,6 +394,29 @@ def union_eq_history(rnd, first_id):
                     ev = dict(base, ev="Construct", iid=0, args=args, kwargs=kwargs, obs={"status": "error", "v": codec.NONE_V, "exc": f"{type(e).__name__}: {e}"[:150]})
             if ev["obs"]["status"] == "ok":
                 next_iid += 1
+        elif r_ < 0.44 and t is inner:
+            # a free-standing instance of the member's structure type, compared with the member from both sides
+            vals = [A.pint(rnd.choice([0, 0, 1, 2])), A.pint(rnd.choice([0, 0, 1, 2]))]
+            P = cs.up
+            so = P(x=A.unpint(vals[0]), y=A.unpint(vals[1]))
+            live[next_iid] = (so, p)
+            ev = dict(base, type=p, ev="Construct", iid=next_iid, args=[], kwargs=[[1, vals[0]], [2, vals[1]]], obs={"status": "ok", "v": A.project(so, p)})
+            next_iid += 1
+            ev["id"] = rid
+            ev["snap"] = [[iid, A.project(o, tt)] for iid, (o, tt) in sorted(live.items())]
+            events.append(ev)
+            rid += 1
+            unions = [i for i, (o, tt) in live.items() if tt is inner]
+            if not unions:
+                continue
+            i = rnd.choice(unions)
+            j = next(k for k, f in enumerate(members) if f["name"] == "s")
+            member = getattr(live[i][0], "s")
+            try:
+                heq, hashable = hash(member) == hash(so), True
+            except TypeError:
+                heq, hashable = False, False
+            ev = dict(base, ev="EqPart", iid=i, j=j + 1, jid=next_iid - 1, obs={"lr": bool(member == so), "rl": bool(so == member), "heq": heq, "hashable": hashable})
         elif r_ < 0.5:
             i = rnd.choice(list(live))
             try:
@@ -426,7 +449,7 @@ class SessionCheck:
     def run(self, rep):
         thorough = rep.tier == "thorough"
         rnd = random.Random(rep.seed)
-        owned = {"C14": {"frame", "construct", "parse-pure", "dump", "setfield"}, "C17": {"eq", "hash", "bool", "construct", "dump", "frame"}}[self.prop]
+        owned = {"C14": {"frame", "construct", "parse-pure", "dump", "setfield"}, "C17": {"eq", "eq-symmetry", "hash", "bool", "construct", "dump", "frame"}}[self.prop]
         rep.rule = ("histories of 14 (thorough: 30) events over three cstruct objects (two byte orders) sharing the same random definitions "
                     "(two structures + a twin with the same field count and other names), up to ~8 live instances: Construct (default / "
                     "positional / keyword), Parse, failed Parse, SetField at random paths (nested fields, array elements, bit-fields), "
